@@ -1014,10 +1014,13 @@ func (h *srvHandler) OnExit(s *stcp.Session) {
 // server frame (the connection count is released by the handler through ReleaseRef).
 func (h *srvHandler) RunEcho(s *stcp.Echo) {
 	defer func() {
+		// the harness's own "live" count goes down before the manager's count is released, so
+		// that live sessions are always a subset of the counted ones (the reverse order let a
+		// monitor that had just seen the count at zero start a new round with live still at 1)
+		h.live.Add(-1)
+		h.exits.Add(1)
 		s.Close()
 		s.ReleaseRef()
-		h.exits.Add(1)
-		h.live.Add(-1)
 	}()
 	n := h.mgr.ConnCount()
 	for {
@@ -1098,8 +1101,13 @@ func serverCase(k *engine.Case) {
 		k.Inconclusive("no probe connection was greeted by this case's server within the bring-up time")
 		return
 	}
-	for w := time.Now().Add(20 * time.Second); h.mgr.ConnCount() != 0 && time.Now().Before(w); {
+	for w := time.Now().Add(20 * time.Second); (h.mgr.ConnCount() != 0 || h.live.Load() != 0) && time.Now().Before(w); {
 		time.Sleep(2 * time.Millisecond)
+	}
+	if h.mgr.ConnCount() != 0 || h.live.Load() != 0 {
+		k.Inconclusive("the bring-up probe's session had not ended within the real-time guard")
+		srv.Close()
+		return
 	}
 	h.max.Store(0)
 	h.maxLive.Store(0)
